@@ -17,8 +17,11 @@ def main():
     # ray_capsule modularly (ray_quad / ray_sphere by contract, ray_map inline), one obligation set per path
     chk.unit(FILE, 'ray_quad', {'ray_quad': ray.QUAD_ROOTS, '__auto_inline__': True, '__no_merge__': True}, 'math', 'real', prefix='[roots]', check_arith=False)
     chk.unit(FILE, 'ray_capsule', ray.CAPSULE, 'math', 'real', check_arith=False)
-    chk.unit(FILE, 'mju_rayGeom', ray.RAYGEOM, 'math', 'real', check_arith=False)      # the dispatch on the geom type
+    chk.unit(FILE, 'ray_map', ray.RAY_MAP_BODY, 'math', 'real', check_arith=False)      # the frame change, against the instantiated contract
+    for fn in ('ray_ellipsoid', 'ray_cylinder', 'ray_box'):
+        chk.unit(FILE, fn, ray.SHAPES, 'math', 'real', check_arith=False)
+    chk.unit(FILE, 'mju_rayGeom', ray.RAYGEOM_FULL, 'math', 'real', check_arith=False)      # the dispatch on the geom type
     chk.assumptions |= {'per-geom ray routines are pure functions of the geom index (ghost function); mj_ray is proved for normal == NULL',
-                        'ray_quad / ray_sphere / ray_plane / ray_capsule over the reals (sqrt is the exact non-negative root); ray_capsule proved for normal == NULL'}
-    chk.out_of_reach += ['plane: proved for normal == NULL', 'capsule: that the reported hit is the NEAREST surface point and that -1 means no hit (attempted: 73 of 123 path obligations time out in nonlinear real arithmetic); proved: the reported point lies on the surface', 'ellipsoid / cylinder / box (named by ghost values in the dispatch mju_rayGeom) / mesh / hfield / SDF ray routines', 'mj_multiRay (spherical-angle pruning), mju_rayTree, flex and skin rays']
+                        'ray_quad / ray_sphere / ray_plane / ray_capsule / ray_ellipsoid / ray_cylinder / ray_box over the reals (sqrt is the exact non-negative root), the shape routines for normal == NULL (and all == NULL for the box); the shape routines use ray_map through its contract with the frame components as uninterpreted functions (they hold for every interpretation); ray_map itself is verified against the instantiated contract'}
+    chk.out_of_reach += ['plane: proved for normal == NULL', 'capsule: that the reported hit is the NEAREST surface point and that -1 means no hit (attempted: 73 of 123 path obligations time out in nonlinear real arithmetic); proved: the reported point lies on the surface', 'ellipsoid / cylinder / box: nearest and no-hit (proved: the reported point lies on the surface); mesh / hfield / SDF ray routines', 'mj_multiRay (spherical-angle pruning), mju_rayTree, flex and skin rays']
     return chk.finish()
